@@ -17,15 +17,16 @@ def dispatch_harness(tier):
     g, info = core.translate(ENG, [rx, rc], stubs, tag='D4_probe', cuts=[r'Boxed_Value::~Boxed_Value'])
     fb = [e.split('|')[0].strip() for e in info['ext'] if 'dispatch_with_conversions' in e]
     if len(fb) != 1: raise core.BuildError('dispatch(): expected exactly one dispatch_with_conversions callee, found %s' % fb)
-    TIS = {'TI_BOXED_VALUE_OBJ': '_ZTIN10chaiscript11Boxed_ValueE', 'TI_BOXED_NUMBER_OBJ': '_ZTIN10chaiscript12Boxed_NumberE', 'TI_FUNCTION_OBJ': '_ZTISt10shared_ptrIKN10chaiscript8dispatch19Proxy_Function_BaseEE',
+    TIS = {'TI_BOXED_VALUE_OBJ': '_ZTIN10chaiscript11Boxed_ValueE', 'TI_BOXED_NUMBER_OBJ': '_ZTIN10chaiscript12Boxed_NumberE', 'TI_FUNCTION_OBJ': '_ZTIN10chaiscript8dispatch19Proxy_Function_BaseE',
            'TI_BAD_BOXED_CAST': '_ZTIN10chaiscript9exception14bad_boxed_castE', 'TI_ARITY_ERROR': '_ZTIN10chaiscript9exception11arity_errorE', 'TI_GUARD_ERROR': '_ZTIN10chaiscript9exception11guard_errorE'}
     d = {'DISPATCH': core.csym(ENG, rx), 'FUNC_CALL': core.csym(ENG, r'^chaiscript::dispatch::Proxy_Function_Base::operator\(\)\('), 'CONVERTS': core.csym(ENG, r'^chaiscript::Type_Conversions::converts\('), 'FALLBACK': 'F_' + core.cname(fb[0])}
     for k, v in TIS.items(): d[k] = '((char*)&g_%s)' % v
+    d['VERIF_STRCMP_BY_IDENTITY'] = 1
     shapes = []
     for nf in ((1, 2) if tier == 'quick' else (1, 2, 3)):
         for na in (1, 2):
             shapes.append(dict(d, NF=nf, NA=na, _tag='overloads=%d,args=%d' % (nf, na), _witness=('witness: overload chosen', 'witness: callee throws', 'witness: fallback') + (('witness: second candidate tried',) if nf >= 2 else ())))
-    h = Harness('D4.dispatch', ENG, [rx, rc], 'c06_dispatch.c', stubs=stubs, cuts=[r'Boxed_Value::~Boxed_Value'], shapes=shapes, opts=['--unwind', '10'], timeout=600, mem_gb=8,
+    h = Harness('D4.dispatch', ENG, [rx, rc], 'c06_dispatch.c', stubs=stubs, cuts=[r'Boxed_Value::~Boxed_Value'], shapes=shapes, opts=['--unwind', '5', '--unwindset', 'main.0:9,main.1:9,type_index.0:9,F_strcmp.0:40'], timeout=600, mem_gb=10,
                 inputs=['farity', 'fptype', 'fbeh', 'atype', 'conv_bit'], note='arity in {-1,1,2}, declared/argument types over an 8-type universe, conversion table and per-overload outcome symbolic')
     h.need_globals = list(TIS.values())
     return h
